@@ -26,7 +26,7 @@ from vf.runner import PropertyViolation, Skip, Sub
 PROPERTY = "C19"
 LEVEL = "exploration"
 RULE = (
-    "Histories = sequences of 1..4 operations from {fit(D1), fit(D2), predict(seed), pickle, clone} (plus set_params "
+    "Histories = sequences of 1..4 (a third: up to 7) operations from {fit(D1), fit(D2), predict(seed), pickle, clone} (plus set_params "
     "re-configuration between fits, prediction on the other dataset, and fitting a sibling estimator of the same "
     "configuration on the other dataset) on "
     "ThresholdOptimizer, ExponentiatedGradient, GridSearch, CorrelationRemover and the adversarial "
@@ -497,9 +497,10 @@ def _labelled(draw, min_per=2, max_per=5, labels=None, max_groups=3, min_groups=
 
 @st.composite
 def _ops_strategy(draw):
-    """1..4 operations; four histories in five start with a fit so that later steps act on a fitted estimator."""
+    """1..4 operations (a third of the histories: up to 7); four histories in five start with a fit so that later
+    steps act on a fitted estimator."""
     first = draw(st.sampled_from(["fit1", "fit2", "fit1", "fit2", "any"]))
-    rest = draw(st.lists(st.sampled_from(OPS + ["fit1", "fit2"] + EXTRA_OPS), min_size=0, max_size=3))
+    rest = draw(st.lists(st.sampled_from(OPS + ["fit1", "fit2"] + EXTRA_OPS), min_size=0, max_size=draw(st.sampled_from([3, 3, 6]))))
     if first == "any":
         return draw(st.lists(st.sampled_from(OPS), min_size=1, max_size=4))
     return [first] + rest
